@@ -63,6 +63,12 @@ class Env:
         raw = np.array([[r.randrange(-5, 9) for _ in range(T)] for _ in range(n)], dtype=float)
         self.bv = DenseBreedingValueMatrix.from_numpy(raw, taxa=names, taxa_grp=None, trait=trait)
         self.n = n
+        self.pg5 = self.pg.select_taxa(np.arange(5))          # small population for the O(n^k) matrices
+        # clustered map positions: equal-width haplotype bins stay empty (surplus blocks must be zero, not leftovers)
+        self.pgc = DensePhasedGenotypeMatrix(ph.copy(), taxa=names.copy(), taxa_grp=np.zeros(n, dtype="int64"), vrnt_chrgrp=chrgrp.copy(),
+                                             vrnt_phypos=np.arange(1, L + 1, dtype="int64"), vrnt_genpos=np.array([0.0, 0.0, 0.0, 0.9, 0.9] * 2),
+                                             vrnt_xoprob=np.array([0.5, 0.0, 0.0, 0.3, 0.0] * 2))
+        self.pgc.group_vrnt()
 
 
 def _quad(n=7, k=3, two=False):
@@ -185,6 +191,49 @@ def _xcfg_mate(enc):
     return fn
 
 
+def _pure(which):
+    """deterministic computations: they may consume no entropy source at all (in particular not the content of
+    uninitialised memory)"""
+    def fn(env, rng):
+        from pybrops.popgen.gmap.HaldaneMapFunction import HaldaneMapFunction
+        if which.startswith("vmat:"):
+            name = which[5:]
+            pkg = "pybrops.model.pcvmat." if "Progeny" in name else "pybrops.model.vmat."
+            cls = getattr(importlib.import_module(pkg + name), name)
+            if "Genic" in name:
+                return np.asarray(cls.from_algmod(env.gm, env.pg5, 10, 2).mat)
+            return np.asarray(cls.from_algmod(env.gm, env.pg5, 1, 10, 1, HaldaneMapFunction(), 2).mat)
+        if which.startswith("cmat:"):
+            name = which[5:]
+            cls = getattr(importlib.import_module("pybrops.popgen.cmat." + name), name)
+            return np.asarray(cls.from_gmat(env.pg).mat)
+        if which == "ohv":
+            from pybrops.breed.prot.sel.prob.OptimalHaploidValueSelectionProblem import OptimalHaploidValueSubsetSelectionProblem as O
+            hm = O._calc_haplomat(env.pg, env.gm, 4); xm = O._calc_xmap(env.n, 2, True)
+            hc = O._calc_haplomat(env.pgc, env.gm, 6)
+            return [np.asarray(hm), np.asarray(O._calc_ohvmat(2, hm, xm, mem=3)), np.asarray(hc), np.asarray(O._calc_ohvmat(2, hc, xm, mem=None))]
+        if which == "uc":
+            from pybrops.breed.prot.sel.prob.UsefulnessCriterionSelectionProblem import UsefulnessCriterionSubsetSelectionProblem as U
+            from pybrops.model.vmat.fcty.DenseTwoWayDHAdditiveGeneticVarianceMatrixFactory import DenseTwoWayDHAdditiveGeneticVarianceMatrixFactory as F
+            xm = U._calc_xmap(5, 2, True)
+            return np.asarray(U._calc_uc(1, 2, 1, 0.1, F(), HaldaneMapFunction(), True, env.pg5, env.gm, xm)) if hasattr(U, "_calc_uc") else None
+        if which == "model":
+            g = env.gm
+            return [np.asarray(g.gebv(env.pg).mat), np.asarray(g.usl(env.pg)), np.asarray(g.lsl(env.pg)), np.asarray(g.var_A(env.pg)), np.asarray(g.facount(env.pg))]
+        if which == "genostats":
+            p = env.pg
+            return [np.asarray(p.afreq()), np.asarray(p.maf()), np.asarray(p.gtcount()), np.asarray(p.meh()), np.asarray(p.mat_asformat("{0,1,2}"))]
+        if which == "xoprob":
+            from pybrops.popgen.gmap.StandardGeneticMap import StandardGeneticMap
+            import copy
+            q = copy.deepcopy(env.pg)
+            gm = StandardGeneticMap(vrnt_chrgrp=np.asarray(q.vrnt_chrgrp), vrnt_phypos=np.asarray(q.vrnt_phypos), vrnt_genpos=np.asarray(q.vrnt_genpos) * 1.5)
+            q.interp_xoprob(gm, HaldaneMapFunction())
+            return [np.asarray(q.vrnt_genpos), np.asarray(q.vrnt_xoprob)]
+        raise KeyError(which)
+    return fn
+
+
 def _twdh(rng):
     from pybrops.breed.prot.mate.TwoWayDHCross import TwoWayDHCross
     return TwoWayDHCross(rng=rng)
@@ -242,6 +291,21 @@ OPS = {
     "memetic_steepest": ("pymoo", _memetic("NSGA2SteepestDescentSubsetGeneticAlgorithm"), True),
     "memetic_stochastic": ("pymoo", _memetic("NSGA2StochasticDescentSubsetGeneticAlgorithm"), True),
     "memetic_b": ("pymoo", _memetic("NSGA2MutatorBSubsetGeneticAlgorithm"), True),
+    "pure_vmat_2w": ("pure", _pure("vmat:DenseTwoWayDHAdditiveGeneticVarianceMatrix"), False),
+    "pure_vmat_2w_genic": ("pure", _pure("vmat:DenseTwoWayDHAdditiveGenicVarianceMatrix"), False),
+    "pure_vmat_3w": ("pure", _pure("vmat:DenseThreeWayDHAdditiveGeneticVarianceMatrix"), False),
+    "pure_vmat_3w_genic": ("pure", _pure("vmat:DenseThreeWayDHAdditiveGenicVarianceMatrix"), False),
+    "pure_vmat_4w": ("pure", _pure("vmat:DenseFourWayDHAdditiveGeneticVarianceMatrix"), False),
+    "pure_vmat_dihybrid": ("pure", _pure("vmat:DenseDihybridDHAdditiveGeneticVarianceMatrix"), False),
+    "pure_pcvmat_2w": ("pure", _pure("vmat:DenseTwoWayDHAdditiveProgenyGeneticCovarianceMatrix"), False),
+    "pure_pcvmat_dihybrid": ("pure", _pure("vmat:DenseDihybridDHAdditiveProgenyGeneticCovarianceMatrix"), False),
+    "pure_cmat_molecular": ("pure", _pure("cmat:DenseMolecularCoancestryMatrix"), False),
+    "pure_cmat_vanraden": ("pure", _pure("cmat:DenseVanRadenCoancestryMatrix"), False),
+    "pure_cmat_yang": ("pure", _pure("cmat:DenseYangCoancestryMatrix"), False),
+    "pure_ohv": ("pure", _pure("ohv"), False),
+    "pure_model": ("pure", _pure("model"), False),
+    "pure_genostats": ("pure", _pure("genostats"), False),
+    "pure_xoprob": ("pure", _pure("xoprob"), False),
     "select_embv": ("select", lambda env, rng: _select("ExpectedMaximumBreedingValueSubsetSelection", "ExpectedMaximumBreedingValueSelection",
                                                       lambda r: _algo("SortingSubsetOptimizationAlgorithm", None), nrep=2,
                                                       mateprot=_twdh(rng), unique_parents=True)(env, rng), True),
